@@ -98,7 +98,7 @@ FaultPipe(pos, at, exc) ==
 FamFaults(_z) ==
   { Cfg(FaultPipe(pos, at, exc), TimesOf(n), 0, nd, NoPrior) :
       pos \in 0 .. 4, at \in 0 .. MAXSTEPS - 1, n \in 1 .. MAXSTEPS, nd \in BOOLEAN,
-      exc \in {"ValueError", "KeyError", "ZeroDivisionError", "ProbeError"} }
+      exc \in {"ValueError", "KeyError", "ZeroDivisionError", "ProbeError", "StopIteration"} }
 
 \* ---- family "flux": every composition of an interval into readouts, flux models
 Compositions(total, maxparts) ==   \* strictly increasing sequences ending at `total`, at most maxparts long
